@@ -574,3 +574,98 @@ def explain_spell(*a):
 
 
 EXPLAIN["_spell"] = explain_spell
+
+
+# ------------------------------------------------------------------ with the REAL reader below Project.reuse_info_of
+# (the other obligations stub reuse_info_of_file by its contract; here its contract is part of what is checked:
+# a file holding only a contributor, or an unparseable expression, counts as a file without information)
+import io as _io  # noqa: E402
+from pathlib import PurePosixPath as _PPP  # noqa: E402
+
+import reuse.extract as _ex  # noqa: E402
+
+REAL_READER = _ex.reuse_info_of_file
+RR_KINDS = ["none", "c", "l", "cl", "contributor-only", "contributor+c", "unparseable", "empty"]
+RR_TEXT = {
+    "none": "x = 1\n",
+    "c": "# SPDX-FileCopyrightText: 2021 own\n\nx = 1\n",
+    "l": "# SPDX-License-Identifier: 0BSD\n\nx = 1\n",
+    "cl": "# SPDX-FileCopyrightText: 2021 own\n#\n# SPDX-License-Identifier: 0BSD\n\nx = 1\n",
+    "contributor-only": "# SPDX-FileContributor: Alice Example\n\nx = 1\n",
+    "contributor+c": "# SPDX-FileCopyrightText: 2021 own\n# SPDX-FileContributor: Alice Example\n\nx = 1\n",
+    "unparseable": "# SPDX-FileCopyrightText: 2021 own\n# SPDX-License-Identifier: MIT AND\n",
+    "empty": "",
+}
+RR_AS = {"none": "none", "c": "c", "l": "l", "cl": "cl", "contributor-only": "none", "contributor+c": "c", "unparseable": "none", "empty": "none"}
+
+
+class _BytesPath:
+    def __init__(self, p, data):
+        self.p, self.data = str(p), data
+
+    @property
+    def suffix(self):
+        return _PPP(self.p).suffix
+
+    def open(self, mode="rb"):
+        return _io.BytesIO(self.data)
+
+    def __str__(self):
+        return self.p
+
+    def __fspath__(self):
+        return self.p
+
+
+def rr_story(k, l0, l1):
+    kind = RR_KINDS[_pick(k, len(RR_KINDS))]
+    lv = [SHAPES[FIXED[0]] if FIXED[0] is not None else SHAPES[_pick(l0, 13)], SHAPES[_pick(l1, 13)], None]
+    tomls = fresh_tomls([tuple(s) if s is not None else None for s in lv])
+    gl = NestedReuseTOML(reuse_tomls=list(reversed(tomls)), source=str(ROOT)) if tomls else None
+    project = pj.Project(ROOT, vcs_strategy=None, global_licensing=gl, license_map={}, licenses={})
+    data = RR_TEXT[kind].encode("utf-8")
+
+    def reader(path, original_path, root):
+        saved = (_ex.Path, _ex.relative_from_root)
+        _ex.Path = lambda p: _BytesPath(p, data)
+        _ex.relative_from_root = lambda p, r: _PPP(str(p)).relative_to(str(r))
+        try:
+            return REAL_READER(path, original_path, root)
+        finally:
+            _ex.Path, _ex.relative_from_root = saved
+
+    saved = (pj.reuse_info_of_file, pj.is_binary, pj._determine_license_path)
+    pj.reuse_info_of_file = reader
+    pj.is_binary = lambda p: False
+    pj._determine_license_path = lambda p: Path(p)
+    try:
+        res = project.reuse_info_of(FILE)
+    finally:
+        pj.reuse_info_of_file, pj.is_binary, pj._determine_license_path = saved
+    got = sorted((a, b, tuple(c.replace("SPDX-FileCopyrightText: ", "") for c in cs), ls, p) for a, b, cs, ls, p in norm(res))
+    exp, _ = model(RR_AS[kind], "absent", lv)
+    exp = sorted(exp)
+    return got == exp, {"file_content": kind, "levels": lv, "got": got, "expected": exp}
+
+
+def _rr(k: int, l0: int, l1: int) -> bool:
+    """
+    pre: 0 <= k < len(RR_KINDS) and 0 <= l0 < 13 and 0 <= l1 < 13
+    post: _
+    """
+    return rr_story(k, l0, l1)[0]
+
+
+def _rr_reach(k: int, l0: int, l1: int) -> bool:
+    """
+    pre: 0 <= k < len(RR_KINDS) and 0 <= l0 < 13 and 0 <= l1 < 13
+    post: False
+    """
+    return rr_story(k, l0, l1)[0]
+
+
+def explain_rr(*a):
+    return rr_story(*a)[1]
+
+
+EXPLAIN["_rr"] = explain_rr
